@@ -3,12 +3,14 @@ package main
 import (
 	"encoding/json"
 	"fmt"
+	"math"
 	"math/rand"
 	"strings"
 	"sync"
 	"sync/atomic"
 
 	"github.com/tidwall/geojson"
+	"github.com/tidwall/geojson/geo"
 	"github.com/tidwall/geojson/geometry"
 )
 
@@ -318,6 +320,68 @@ func c0910(args []string) error {
 			}
 		}
 	}
+	// shapes in the gap between a circle's polygon approximation and its disc (midway between two polygon vertices, 99.9 % of the
+	// radius out), and point collections large enough to carry a child index against tiny circles: the same laws
+	for _, cfg := range []struct {
+		r     float64
+		steps int
+	}{{1000, 64}, {600000, 64}, {50000, 12}, {3, 64}} {
+		centre := geometry.Point{X: 1, Y: 1}
+		c := geojson.NewCircle(centre, cfg.r, cfg.steps)
+		tc := Tree{Kind: "Circle", P: []int{1, 1}, R: int(cfg.r), Steps: cfg.steps}
+		brg := 180.0 / float64(cfg.steps) // half a step
+		gap := 1 - (1-math.Cos(math.Pi/float64(cfg.steps)))/2
+		at := func(f, b float64) geometry.Point {
+			la, lo := geo.DestinationPoint(centre.Y, centre.X, cfg.r*f, b)
+			return geometry.Point{X: lo, Y: la}
+		}
+		p1, p2, p3 := at(gap, brg), at(gap*0.9999, brg+0.01), at(gap*0.9998, brg-0.01)
+		shapes := []geojson.Object{
+			geojson.NewLineString(geometry.NewLine([]geometry.Point{p1, p2}, nil)),
+			geojson.NewPolygon(geometry.NewPoly([]geometry.Point{p1, p2, p3, p1}, nil, nil)),
+			geojson.NewRect(geometry.Rect{Min: geometry.Point{X: math.Min(p1.X, p2.X), Y: math.Min(p1.Y, p2.Y)}, Max: geometry.Point{X: math.Max(p1.X, p2.X), Y: math.Max(p1.Y, p2.Y)}}),
+			geojson.NewMultiPoint([]geometry.Point{p1, p3}),
+		}
+		for si, sh := range shapes {
+			ts := placeholder([]string{"LineString", "Polygon", "Rect", "MultiPoint"}[si])
+			emitLaw(tc, ts, c, sh)
+			emitLaw(ts, tc, sh, c)
+		}
+	}
+	for _, r := range []float64{0.1, 0.25, 2} {
+		centre := geometry.Point{X: 1, Y: 1}
+		c := geojson.NewCircle(centre, r, 64)
+		tc := Tree{Kind: "Circle", P: []int{1, 1}, R: int(r * 100), Steps: 64}
+		var pts []geometry.Point
+		var kids []geojson.Object
+		for k := 0; k < 70; k++ {
+			p := geometry.Point{X: 1 + float64(k+1)*0.01, Y: 1 + float64(k%7)*0.01}
+			if k == 37 {
+				p = geometry.Point{X: centre.X + 0.4*r/111195, Y: centre.Y - 0.3*r/111195} // the only one inside the disc
+			}
+			pts = append(pts, p)
+			kids = append(kids, geojson.NewPoint(p))
+		}
+		mp := geojson.NewMultiPoint(pts)
+		gc := geojson.NewGeometryCollection(kids)
+		emitLaw(placeholder("MultiPoint"), tc, mp, c)
+		emitLaw(tc, placeholder("MultiPoint"), c, mp)
+		// C10: the collection intersects X iff some child intersects X, also for a Circle X and with a child index
+		for _, coll := range []geojson.Object{mp, gc} {
+			any := false
+			for _, ch := range coll.(geojson.Collection).Children() {
+				any = any || ch.Intersects(c)
+			}
+			ev.Emit(obj{"op": "compose", "what": "intersects a circle of " + fmt.Sprint(r) + " m", "kind": fmt.Sprintf("%T with %d children", coll, len(coll.(geojson.Collection).Children())),
+				"got": coll.Intersects(c), "some_child": any})
+		}
+		emitLaw(placeholder("GeometryCollection"), tc, gc, c)
+		if text := gc.JSON(); true { // the same collection obtained through Parse with a child index from 1 child on
+			if po, err := geojson.Parse(text, &geojson.ParseOptions{IndexChildren: 1, IndexGeometry: 64, IndexGeometryKind: geometry.QuadTree}); err == nil {
+				emitLaw(placeholder("GeometryCollection"), tc, po, c)
+			}
+		}
+	}
 	selfLaw = true
 	wl, we := wildLaws(ev, emitLaw)
 	laws += wl
@@ -465,4 +529,18 @@ func wildLaws(ev *Events, emitLaw func(ta, tb Tree, a, b geojson.Object)) (laws,
 		}
 	}
 	return
+}
+
+// placeholder: a small tree of the given kind that stands for an object with float coordinates in the description of an event
+// (the events of this family are judged on their recorded answers only)
+func placeholder(kind string) Tree {
+	switch kind {
+	case "LineString", "MultiPoint":
+		return Tree{Kind: kind, Pts: [][]int{{1, 1}, {1, 1}}}
+	case "Polygon":
+		return Tree{Kind: kind, Rings: [][][]int{{{1, 1}, {1, 1}, {1, 1}, {1, 1}}}}
+	case "Rect":
+		return Tree{Kind: kind, Min: []int{1, 1}, Max: []int{1, 1}}
+	}
+	return Tree{Kind: kind, Kids: []Tree{{Kind: "Point", P: []int{1, 1}}}}
 }
